@@ -177,7 +177,7 @@ func cmdCheck(args []string) int {
 	tier := fs.String("tier", "", "quick|thorough")
 	repo := fs.String("repo", "/repo", "repository")
 	replay := fs.String("replay", "", "re-run the replay recorded in this file")
-	par := fs.Int("j", 8, "parallel obligations")
+	par := fs.Int("j", 5, "parallel obligations")
 	writeClaims := fs.Bool("write-claims", false, "development: (re)write the claim lines from the currently discharged obligations")
 	if len(args) < 1 {
 		fmt.Fprintln(os.Stderr, "usage: govc check <ID> [--tier quick|thorough]")
